@@ -48,7 +48,8 @@ type handler1 struct {
 	snRemoteAddr     net.Addr
 	mqttConn         *util.ConnWithContext
 	registeredTopics sync.Map // uint16 => string
-	pendingTopics    sync.Map // string => uint16 (REGISTER sent, no REGACK yet)
+	pendingTopics    sync.Map // string => uint16 (TopicID assigned, not announced to the client yet)
+	topicsLock       sync.Mutex
 	predefinedTopics topics.PredefinedTopics
 	keepAlive        uint16
 	clientID         string
@@ -387,18 +388,12 @@ func (h *handler1) handleBrokerPublish(ctx context.Context, mqPublish *mqPkts.Pu
 	var nextState transactionState
 	if needsRegister {
 		// If a registration of the same topic is already in progress (a
-		// burst of messages on a new topic), reuse its TopicID: one topic
-		// must not get more TopicIDs.
-		var topicID uint16
-		if pendingID, ok := h.pendingTopics.Load(mqPublish.TopicName); ok {
-			topicID = pendingID.(uint16)
-		} else {
-			var err error
-			topicID, err = h.newTopicID()
-			if err != nil {
-				return err
-			}
-			h.pendingTopics.Store(mqPublish.TopicName, topicID)
+		// burst of messages on a new topic, a REGISTER or SUBSCRIBE from
+		// the client), its TopicID is reused: one topic must not get more
+		// TopicIDs.
+		topicID, err := h.registerTopic(mqPublish.TopicName)
+		if err != nil {
+			return err
 		}
 
 		// snPublish will be sent after REGACK is received
@@ -579,18 +574,36 @@ func (h *handler1) newTopicID() (uint16, error) {
 	return topicID, nil
 }
 
+// registerTopic returns the TopicID of the topic, a new one if the topic has none.
+//
+// A new TopicID is only pending until topicAnnounced is called: the MQTT broker
+// can send a PUBLISH with the topic anytime and the gateway must not use
+// a TopicID the client has not been told yet (the REGACK or SUBACK which
+// carries it has not been sent) in a PUBLISH packet.
 func (h *handler1) registerTopic(topic string) (uint16, error) {
+	h.topicsLock.Lock()
+	defer h.topicsLock.Unlock()
 	// If already registered, return existing TopicID.
 	if topicID, ok := h.findRegisteredTopicID(topic); ok {
 		return topicID, nil
+	}
+	if pendingID, ok := h.pendingTopics.Load(topic); ok {
+		return pendingID.(uint16), nil
 	}
 	// New registration.
 	topicID, err := h.newTopicID()
 	if err != nil {
 		return 0, err
 	}
-	h.registeredTopics.Store(topicID, topic)
+	h.pendingTopics.Store(topic, topicID)
 	return topicID, nil
+}
+
+// topicAnnounced finishes the registration: the client knows the TopicID
+// (or it is just being sent to it).
+func (h *handler1) topicAnnounced(topicID uint16, topic string) {
+	h.registeredTopics.Store(topicID, topic)
+	h.pendingTopics.Delete(topic)
 }
 
 func (h *handler1) handleConnect(ctx context.Context, snConnect *snPkts1.Connect) error {
@@ -656,6 +669,8 @@ func (h *handler1) handleConnect(ctx context.Context, snConnect *snPkts1.Connect
 
 func (h *handler1) handleSubscribe(ctx context.Context, snSubscribe *snPkts1.Subscribe) error {
 	var topic string
+	// The topic which gets its TopicID registered by this SUBSCRIBE, if any.
+	var newTopic string
 	// From MQTT-SN specification v. 1.2, chapter 5.4.16 SUBACK:
 	// 	TopicID [...] [is] not relevant in case of subscriptions to a short topic name or to a topic name which
 	// 	contains wildcard characters
@@ -687,6 +702,7 @@ func (h *handler1) handleSubscribe(ctx context.Context, snSubscribe *snPkts1.Sub
 				snSuback.CopyMessageID(snSubscribe)
 				return h.snSend(snSuback)
 			}
+			newTopic = topic
 		}
 		// topicID remains zero if client is subscribing to a wildcard topic.
 	case snPkts1.TIT_PREDEFINED:
@@ -708,7 +724,7 @@ func (h *handler1) handleSubscribe(ctx context.Context, snSubscribe *snPkts1.Sub
 	}
 
 	msgID := snSubscribe.MessageID()
-	transaction := newSubscribeTransaction(ctx, h, msgID, topicID)
+	transaction := newSubscribeTransaction(ctx, h, msgID, topicID, newTopic)
 	h.transactions.Store(msgID, transaction)
 
 	mqSubscribe := mqPkts.NewControlPacket(mqPkts.Subscribe).(*mqPkts.SubscribePacket)
@@ -855,7 +871,13 @@ func (h *handler1) handleMqttSn(ctx context.Context, pkt snPkts.Packet) error {
 		}
 		m2 := snPkts1.NewRegack(topicID, returnCode)
 		m2.CopyMessageID(snPkt)
-		return h.snSend(m2)
+		if err := h.snSend(m2); err != nil {
+			return err
+		}
+		if returnCode == snPkts1.RC_ACCEPTED {
+			h.topicAnnounced(topicID, snPkt.TopicName)
+		}
+		return nil
 
 	// Client PUBLISH QoS 0,1,2,3 transaction.
 	case *snPkts1.Publish:
